@@ -169,7 +169,18 @@ func (g *Gen) emit(st *Step) bool {
 // Run generates and executes one whole run.
 func (g *Gen) Run() {
 	p := g.P
+	// Safety valve, not a scheduling decision: a run whose steps have become pathologically
+	// slow to execute and observe (state full of numbers of a hundred thousand digits) is ended
+	// early. What was executed up to here has been judged and is in the trace; only how far the
+	// run goes depends on the wall clock, never which steps it consists of.
+	t0 := time.Now()
 	for g.blk = 0; g.blk < p.MaxBlocks && g.txs < p.MaxTxs; g.blk++ {
+		if time.Since(t0) > 45*time.Second {
+			if g.W != nil {
+				g.W.Probe("run_ended_early_by_the_wall_clock_safety_valve")
+			}
+			break
+		}
 		t := g.nextBlockTime()
 		if !g.emit(&Step{Kind: KBegin, Time: FmtTime(t)}) {
 			return
